@@ -226,7 +226,34 @@ class C10(PropertyCheck):
                     return False
         return True
 
+    # Work-around for the runner being quadratic in the number of failing cases (it recomputes a set of
+    # case keys per disagreement): once FAIL_CAP generated cases have failed in a run, further failures
+    # of *generated* cases are not recorded (the run is a VIOLATION already).  Shrink candidates
+    # (marked "_s") and corpus cases are always evaluated in full.
+    FAIL_CAP = 40
+    _fails = 0
+    _disagreements = 0
+
     def oracle(self, case, obs):
+        ok, detail = self._oracle(case, obs)
+        if not ok and "_s" not in case and "corpus_file" not in case:
+            if self._fails >= self.FAIL_CAP:
+                return True, ""
+            self._fails += 1
+        return ok, detail
+
+    def compare(self, case, impl_obs, model_obs, cmp):
+        d = cmp.diff(impl_obs, model_obs)
+        if d and "corpus_file" not in case:
+            if self._disagreements >= self.FAIL_CAP:
+                return None
+            self._disagreements += 1
+        return d
+
+    def sample_view(self, case):
+        return {k: v for k, v in case.items() if not k.startswith("_")}
+
+    def _oracle(self, case, obs):
         m = mask_from_json(case["mask"])
         h, w = m.shape
         kind = case["kind"]
@@ -316,13 +343,18 @@ class C10(PropertyCheck):
         return "0" in b and "1" in b
 
     _shrink_rounds = 0
-    SHRINK_ROUNDS_MAX = 120   # per run: the runner minimises every failing case; when many cases shrink to
-                              # the same witness it would otherwise walk through all of them
+    SHRINK_ROUNDS_MAX = 150   # per run (the runner minimises every recorded failing case)
 
     def shrink(self, case):
         self._shrink_rounds += 1
         if self._shrink_rounds > self.SHRINK_ROUNDS_MAX:
             return
+        for c in self._shrink(case):
+            c["_s"] = 1
+            c.pop("corpus_file", None)
+            yield c
+
+    def _shrink(self, case):
         mj = case["mask"]
         bits = mj["bits"]
         h, w = mj["h"], mj["w"]
